@@ -111,7 +111,20 @@ class ExprMixin:
         kind, obj = self.repo.resolve_name(mod, e.id)
         if kind == "ext" and obj == e.id and e.id not in mod.imports:
             return sv.SPy("builtin", e.id)
+        f = self.module_state_field(kind, obj)
+        if f is not None:
+            return path.heap_get(self, sv.WORLD, f)
         return self.py_value(kind, obj, path)
+
+    def module_state_field(self, kind, obj):
+        """mutable module-level variable declared as state (Registry.module_state): lives in the heap of the world object"""
+        if kind != "const":
+            return None
+        m, node = obj
+        for (mn, var), f in getattr(self.registry, "module_state", {}).items():
+            if mn == m.name and m.consts.get(var) is node:
+                return f
+        return None
 
     def py_value(self, kind, obj, path):
         if kind == "const":
@@ -618,6 +631,8 @@ class ExprMixin:
             return sv.Or(*parts)
         if isinstance(key, sv.SNone):
             return fn(self.none_key())
+        if isinstance(key, sv.STup):
+            return fn(self.key_expr(key))
         return fn(key.e)
 
     def none_key(self):
@@ -698,7 +713,7 @@ class ExprMixin:
             for g, v in reversed(parts[:-1]):
                 r = sv.ite(g, v, r)
             return r
-        return d.val(self.none_key() if isinstance(key, sv.SNone) else key.e)
+        return d.val(self.key_expr(key))
 
     def slice_of(self, base, sl, path, node):
         if sl.step is not None:
@@ -764,6 +779,9 @@ class ExprMixin:
             return r
         if isinstance(key, sv._Leaf):
             return key.e
+        if isinstance(key, sv.STup) and key.items and all(isinstance(x, sv._Leaf) for x in key.items):
+            # tuple keys: an injective constructor into the opaque sort (axioms: sv.tuple_key_axioms)
+            return sv.tuple_key([x.e for x in key.items])
         raise Unsupported(f"container key {key}")
 
     def dict_set(self, d, key, val):
